@@ -168,6 +168,126 @@ def render_vmx(vm, rng):
     return text, truth, {lk: v for lk, (k, v) in final.items()}
 
 
+
+# --------------------------------------------------------------------------- XML spellings of a logical string (C19 benign stream)
+#
+# XML has many spellings of one string: the writer knows the logical string (that is the truth) and picks a spelling per
+# character: literal, predefined entity, decimal / hexadecimal character reference (leading zeros, either hex case), CDATA
+# sections (text only; a "]]>" in the string is split over two sections), and -- invisible to the tree -- comments and
+# processing instructions in the middle of character data. None of this needs (or is) an entity declaration.
+
+ENC_STYLES = ("dec", "hex", "amp_numeric", "predef", "cdata", "mixed")
+PREDEF = {"&": "&amp;", "<": "&lt;", ">": "&gt;", '"': "&quot;", "'": "&apos;"}
+ENC_COMMENTS = ["<!-- R&D <b> -->", "<!--<!DOCTYPE x [<!ENTITY a 'b'>]>-->", "<!-- &lol; &#x26; &amp -->", "<!-- <![CDATA[ & ]]> -->",
+                "<!-- <Hdd><SystemName>c&c</SystemName></Hdd> -->", "<!---->"]
+ENC_PIS = ["<?app R&D <!DOCTYPE x>?>", "<?xml-stylesheet href='a&b.xsl'?>", "<?php echo '<a>' & 1; ?>", "<?e <!ENTITY x SYSTEM 'file:///etc/passwd'> &x; ?>", "<?p?>"]
+SPICY = ["R&D", "R&D <2024>", "a]]>b", "x]]", "]]>", "caf\u00e9", "\u00dcn\u00ef", "\u65e5\u672c\u8a9e\u30c7\u30a3\u30b9\u30af", "\U0001F4BEvm", "Windows 11",
+         "a&amp;b", "&#233;t&#xE9;", "&lt;tag&gt;", "it's \"q\"", "tab\there", "line\nbreak", "cr\rhere", "100% &", "&", "<", "<!-- c -->",
+         "<![CDATA[x]]>", "<?pi?>", "&lol;", "<!DOCTYPE x>", "a\u00a0b", "e\u0301", "A&B&C", "&&", "&#38;", "a;b&c;d", "x&y;z"]
+
+
+class Enc:
+    def __init__(self, style, seed, ascii_only=False):
+        self.style, self.g, self.ascii_only = style, random.Random(seed), ascii_only
+        self.used = set()
+
+    def _ref(self, c, how):
+        g = self.g
+        z = "0" * g.choice([0, 0, 0, 1, 3])
+        if how == "dec":
+            return f"&#{z}{ord(c)};"
+        h = "%x" % ord(c)
+        h = h.upper() if g.random() < 0.5 else h
+        return f"&#x{z}{h};"
+
+    def _lit_ok(self, s, i, ctx):
+        c = s[i]
+        if c in "&<":
+            return False
+        if self.ascii_only and ord(c) > 126:
+            return False
+        if ctx == "text":
+            return not (c == "\r" or (c == ">" and s[max(0, i - 2):i] == "]]"))
+        return c != ctx and c not in "\t\n\r"
+
+    def _char(self, s, i, ctx):
+        c, g, st = s[i], self.g, self.style
+        special = c in PREDEF or ord(c) > 126 or c in "\t\n\r"
+        opts = []
+        if self._lit_ok(s, i, ctx):
+            opts.append("lit")
+        if st == "dec":
+            pick = "dec" if special or g.random() < 0.15 else "lit"
+        elif st == "hex":
+            pick = "hex" if special or g.random() < 0.15 else "lit"
+        elif st == "amp_numeric":
+            pick = g.choice(["dec", "hex"]) if c in "&<" else g.choice(["lit", "lit", "predef"]) if c in PREDEF else "lit"
+        elif st == "predef":
+            pick = "predef" if c in PREDEF else "lit"
+        elif st == "cdata":
+            pick = "predef" if c in PREDEF else "lit"
+        else:
+            pick = g.choice(["lit", "lit", "lit", "dec", "hex", "predef"]) if not special else g.choice(["lit", "dec", "hex", "predef", "predef"])
+        if pick == "predef" and c not in PREDEF:
+            pick = "lit"
+        if pick == "lit" and "lit" not in opts:
+            pick = "predef" if c in PREDEF and st not in ("dec", "hex") else ("hex" if st == "hex" else "dec")
+        self.used.add(pick)
+        return c if pick == "lit" else PREDEF[c] if pick == "predef" else self._ref(c, pick)
+
+    def _cdata(self, run):
+        """run (no \\r, nothing non-ASCII when ascii_only) as one or more CDATA sections"""
+        self.used.add("cdata")
+        parts = run.split("]]>")
+        out = parts[0]
+        for p in parts[1:]:
+            out += "]]" + "]]><![CDATA[" + ">" + p
+        return "<![CDATA[" + out + "]]>"
+
+    def value(self, s, ctx):
+        """a spelling of the logical string s; ctx = "text" or the attribute's quote character"""
+        g = self.g
+        if s == "":
+            return "<![CDATA[]]>" if ctx == "text" and self.style in ("cdata", "mixed") and g.random() < 0.3 else ""
+        if ctx == "text" and self.style in ("cdata", "mixed"):
+            # cut the string into 1..4 pieces; a piece becomes a CDATA section when it can
+            n = len(s)
+            cuts = sorted({0, n} | {g.randrange(n + 1) for _ in range(g.choice([0, 1, 2, 3]))})
+            out = []
+            for a, b in zip(cuts, cuts[1:]):
+                piece = s[a:b]
+                can = "\r" not in piece and not (self.ascii_only and any(ord(c) > 126 for c in piece))
+                if can and (self.style == "cdata" or g.random() < 0.5):
+                    out.append(self._cdata(piece))
+                else:
+                    out.append("".join(self._char(s, i, ctx) for i in range(a, b)))
+                if b < n and g.random() < 0.35:
+                    self.used.add("midtext")
+                    out.append(g.choice(ENC_COMMENTS + ENC_PIS))
+            return "".join(out)
+        return "".join(self._char(s, i, ctx) for i in range(len(s)))
+
+    def between(self):
+        """markup the tree builder drops, for the space between two child elements"""
+        return self.g.choice(ENC_COMMENTS + ENC_PIS) if self.g.random() < 0.12 else ""
+
+
+def spice_vm(vm, g):
+    """-> a copy of the VM whose media names carry the characters XML has to spell: & < > quotes ]]> non-ASCII white space and
+    text that looks like markup / references (the *logical* name contains it literally)"""
+    vm = dict(vm, devices=[dict(d) for d in vm["devices"]])
+    n = 0
+    for d in vm["devices"]:
+        n += 1
+        if d["file"] and d["kind"] in DISK_KINDS + ("cdrom-image",) and g.random() < 0.8:
+            d["file"] = g.choice(SPICY) + (f"-{n}" if g.random() < 0.8 else "") + (".iso" if d["kind"] == "cdrom-image" else "")
+    if not hard_disks(vm):
+        vm["devices"].append({"cls": "scsi", "bus": 3, "unit": 30, "kind": "disk", "file": g.choice(SPICY) + "-0"})
+        if not any(c["cls"] == "scsi" and c["bus"] == 3 for c in vm["controllers"]):
+            vm["controllers"] = vm["controllers"] + [{"cls": "scsi", "bus": 3, "props": [["present", "TRUE"]]}]
+    return vm
+
+
 # --------------------------------------------------------------------------- XML serializer
 
 def el(tag, attrs=(), kids=(), ns=None, decl=()):
@@ -180,7 +300,8 @@ def _esc(s, q=None):
     return s.replace(q, "&quot;" if q == '"' else "&apos;") if q else s.replace(">", "&gt;")
 
 
-def _ser(e, rng, scope, depth, ind, out):
+def _ser(e, rng, scope, depth, ind, out, enc=None):
+    """enc (an Enc, own random stream): every text node and attribute value is written in one of its XML spellings"""
     scope = dict(scope)
     attrs = []
     for p, u in e["d"]:
@@ -193,12 +314,15 @@ def _ser(e, rng, scope, depth, ind, out):
         p = rng.choice([p for p in scope[ns] if p or not attr])
         return f"{p}:{name}" if p else name
     tag = qn(e["ns"], e["t"])
+    nd = len(attrs)
     attrs += [(qn(ns, n, True), v) for ns, n, v in e["a"]]
+    plain = {id(x) for x in attrs[:nd]}                      # namespace declarations keep their plain spelling
     rng.shuffle(attrs)
     a = ""
-    for n, v in attrs:
+    for x in attrs:
+        n, v = x
         q = rng.choice('""\'')
-        a += rng.choice([" ", " ", "  ", "\n" + ind * (depth + 2) if ind else " "]) + f"{n}={q}{_esc(v, q)}{q}"
+        a += rng.choice([" ", " ", "  ", "\n" + ind * (depth + 2) if ind else " "]) + f"{n}={q}{_esc(v, q) if enc is None or id(x) in plain else enc.value(v, q)}{q}"
     if not e["k"]:
         out.append(f"<{tag}{a}/>" if rng.random() < 0.7 else f"<{tag}{a}></{tag}>")
         return tag
@@ -209,17 +333,19 @@ def _ser(e, rng, scope, depth, ind, out):
         out.append(nl)
         if only_el and rng.random() < 0.04:
             out.append("<!-- " + rng.choice(["generated", "<HardDisk location='c.vdi' type='Normal' format='VDI'/>", "<Hdd><SystemName>c</SystemName></Hdd>"]) + " -->" + nl)
+        if enc is not None and only_el:
+            out.append(enc.between())
         if isinstance(k, dict):
-            _ser(k, rng, scope, depth + 1, ind, out)
+            _ser(k, rng, scope, depth + 1, ind, out, enc)
         else:
-            out.append(_esc(k) if isinstance(k, str) else k[1])
+            out.append((_esc(k) if enc is None else enc.value(k, "text")) if isinstance(k, str) else k[1])
     out.append(("\n" + ind * depth if nl else "") + f"</{tag}>")
     return tag
 
 
-def _doc(tree, rng, doctype=None):
+def _doc(tree, rng, doctype=None, enc=None):
     out = []
-    root = _ser(tree, rng, {}, 0, rng.choice(["", "  ", "    ", "\t"]), out)
+    root = _ser(tree, rng, {}, 0, rng.choice(["", "  ", "    ", "\t"]), out, enc)
     head = rng.choice(['<?xml version="1.0" encoding="UTF-8"?>\n', "<?xml version='1.0' encoding='utf-8'?>\n", '<?xml version="1.0"?>\n',
                        '<?xml version="1.0" encoding="UTF-8" standalone="no"?>\n', ""])
     return head + (doctype.replace("%ROOT%", root) + "\n" if doctype else "") + "".join(out) + rng.choice(["\n", ""])
@@ -235,7 +361,7 @@ def _slot(tag, slot, ns=None):
 
 # --------------------------------------------------------------------------- OVF
 
-def render_ovf(vm, rng, slot=None, doctype=None):
+def render_ovf(vm, rng, slot=None, doctype=None, enc=None):
     """-> (xml, disk hrefs in document order of the disk-drive Items)"""
     O, R = OVF_NS, RASD_NS
     po, pr = rng.choice(["ovf", "ovf", "ovf", "o", "env", "ns0"]), rng.choice(["rasd", "rasd", "r", "ns1", "RASD"])
@@ -323,12 +449,12 @@ def render_ovf(vm, rng, slot=None, doctype=None):
     if rng.random() < 0.6:
         top.append(el("NetworkSection", kids=[info("The list of logical networks"), el("Network", [(O, "name", "VM Network")], [_t("Description", "17", O)], ns=O)], ns=O))
     top.append(vs)
-    return _doc(el("Envelope", kids=top, ns=O, decl=decl), rng, doctype), truth
+    return _doc(el("Envelope", kids=top, ns=O, decl=decl), rng, doctype, enc), truth
 
 
 # --------------------------------------------------------------------------- VirtualBox
 
-def render_vbox(vm, rng, slot=None, doctype=None, reading="vdi"):
+def render_vbox(vm, rng, slot=None, doctype=None, reading="vdi", enc=None):
     """-> (xml, locations in document order). reading "vdi" = registered HardDisk elements of type Normal and format
     VDI (any case) — what the parser documents; "attached" = base image of every attached hard disk of any format/type."""
     N = VBOX_NS
@@ -391,12 +517,12 @@ def render_vbox(vm, rng, slot=None, doctype=None, reading="vdi"):
     p = rng.choice(["", "", "", "vb", "ns0"])
     root = el("VirtualBox", [(None, "version", rng.choice(["1.16-windows", "1.19-linux", "1.12-macosx"]))], body, ns=N,
               decl=[(p, N)] + ([("v2", N)] if p == "" and rng.random() < 0.2 else []))
-    return _doc(root, rng, doctype), truth[reading]
+    return _doc(root, rng, doctype, enc), truth[reading]
 
 
 # --------------------------------------------------------------------------- Parallels config.pvs / DiskDescriptor.xml
 
-def render_pvs(vm, rng, slot=None, doctype=None):
+def render_pvs(vm, rng, slot=None, doctype=None, enc=None):
     """-> (xml, SystemName of every Hdd in document order)"""
     hw, truth = [], []
     for d in vm["devices"]:
@@ -424,10 +550,10 @@ def render_pvs(vm, rng, slot=None, doctype=None):
     ident = el("Identification", kids=[_t("VmUuid", "{" + _uuid(rng) + "}"), _t("VmName", vm["name"]), _t("VmHome", "/vms/x.pvm/config.pvs")] + _slot("VmDescription", slot))
     settings = el("Settings", kids=[el("Startup", kids=[_t("AutoStart", "0"), el("BootingOrder", kids=[el("BootDevice", kids=[_t("Index", "0"), _t("Type", "6"), _t("BootingNumber", "1")])])])])
     kids = [_t("AppVersion", "17.1.1-51537"), ident, settings, el("Hardware", kids=hw)]
-    return _doc(el("ParallelsVirtualMachine", [(None, "dyn_lists", "VirtualAppliance 0"), (None, "schemaVersion", "1.0")], kids), rng, doctype), truth
+    return _doc(el("ParallelsVirtualMachine", [(None, "dyn_lists", "VirtualAppliance 0"), (None, "schemaVersion", "1.0")], kids), rng, doctype, enc), truth
 
 
-def render_hdd_descriptor(rng, slot=None, doctype=None):
+def render_hdd_descriptor(rng, slot=None, doctype=None, enc=None, stems=None):
     """DiskDescriptor.xml (docs/interop/prl-xml.txt) -> (xml, {"storages": [[start, end, [[guid, type, file]..]]..], "top": guid|None, "shots": [[guid, parent]..]})"""
     null = "00000000-0000-0000-0000-000000000000"
     shots, parent = [], null
@@ -438,7 +564,7 @@ def render_hdd_descriptor(rng, slot=None, doctype=None):
     storages, start = [], 0
     for s in range(rng.choice([1, 1, 2, 3])):
         end = start + rng.choice([2048, 204800, 1 << 22])
-        storages.append([start, end, [[g, rng.choice(["Compressed", "Compressed", "Plain"]), f"disk.hdd.{s}.{{{g}}}.hds"] for g, _ in shots]])
+        storages.append([start, end, [[g, rng.choice(["Compressed", "Compressed", "Plain"]), f"{stems[s % len(stems)] if stems else 'disk'}.hdd.{s}.{{{g}}}.hds"] for g, _ in shots]])
         start = end
     br = lambda g: "{" + g + "}"
     top = rng.choice([None, shots[-1][0]])
@@ -449,7 +575,7 @@ def render_hdd_descriptor(rng, slot=None, doctype=None):
                                      el("Encryption", kids=[_t("Engine", br(null)), _t("Data", "")]), _t("UID", br(_uuid(rng)))] + _slot("Name", slot)
             + [el("Miscellaneous", kids=[_t("CompatLevel", "level2"), _t("Bootable", "1")])])
     tree = el("Parallels_disk_image", [(None, "Version", "1.0")], [dp, sd, sn])
-    return _doc(tree, rng, doctype), {"storages": storages, "top": top, "shots": shots}
+    return _doc(tree, rng, doctype, enc), {"storages": storages, "top": top, "shots": shots}
 
 
 RENDER = {"vmx": render_vmx, "ovf": render_ovf, "vbox": render_vbox, "pvs": render_pvs}
@@ -466,12 +592,32 @@ def build(recipe):
 ENTRIES = ("ovf", "vbox", "pvs", "hdd_descriptor")
 
 
-def _body(entry, seed, slot, doctype):
+def _body(entry, seed, slot, doctype, enc_style=None):
+    """enc_style (one of ENC_STYLES): media names with characters XML has to spell, every text node / attribute value written
+    in that spelling style (see Enc); the truth stays the logical strings"""
     rng = random.Random(seed)
+    enc = Enc(enc_style, f"enc/{seed}", ascii_only=(entry == "hdd_descriptor")) if enc_style else None
     if entry == "hdd_descriptor":
-        return render_hdd_descriptor(rng, slot, doctype)
+        stems = [enc.g.choice(SPICY) for _ in range(3)] if enc else None
+        return render_hdd_descriptor(rng, slot, doctype, enc=enc, stems=stems)
     vm = gen_vm(rng)
-    return {"ovf": render_ovf, "vbox": render_vbox, "pvs": render_pvs}[entry](vm, rng, slot, doctype)
+    if enc:
+        vm = spice_vm(vm, enc.g)
+    return {"ovf": render_ovf, "vbox": render_vbox, "pvs": render_pvs}[entry](vm, rng, slot, doctype, enc=enc)
+
+
+def spelled_cases(rng, per=3):
+    """benign documents (no DOCTYPE at all) for every entry point x every spelling style: all must parse to the logical strings"""
+    out = []
+    for entry in ENTRIES:
+        for style in ENC_STYLES:
+            for _ in range(per):
+                seed = rng.getrandbits(32)
+                slot = rng.choice(["plain text", "&#x4C;&#79;L &lt;&gt;&amp;&quot;&apos;", "<![CDATA[ <!DOCTYPE x [<!ENTITY a 'b'>]> &a; ]]>", "a<!-- & -->b<?p &?>c"])
+                xml, truth = _body(entry, seed, slot, None, enc_style=style)
+                out.append({"name": f"{entry}/spelled_{style}/parse", "entry": entry, "kind": "spelled_" + style, "expect": "parse", "xml": xml,
+                            "truth": truth, "seed": seed, "slot": slot})
+    return out
 
 
 def dtd_kinds(rng):
